@@ -14,8 +14,8 @@ C10_LEVEL = ("proof, partial: proof at lock-segment granularity (mutual exclusio
 PROPS = {
     "C01": {
         "lean": ["Stackage.Props.C01"],
-        "streams": [{"name": "genfuncs", "quick": 600, "thorough": 12000}, {"name": "hist", "quick": 3000, "thorough": 60000}],
-        "rule": "random histories of the 8 content mutators (+ FIFO / index-option switches) with boundary-biased indices on stacks of "
+        "streams": [{"name": "genfuncs", "quick": 600, "thorough": 12000}, {"name": "hist", "quick": 3000, "thorough": 480000}],
+        "rule": "thorough: exhaustive first - every history of at most 4 operations over a 15-letter alphabet (push one / nil / two, pop, insert at 0 / 1 / beyond, remove 0 / 1, replace 0 / 1, swap, reverse, reset, SetFIFO) from 8 starting stacks (empty, one, three with a nil; capacity none / 3; LIFO / FIFO): 433920 cases - then random ones. random histories of the 8 content mutators (+ FIFO / index-option switches) with boundary-biased indices on stacks of "
                 "every kind, LIFO/FIFO, capacity none or 1..6; full observation (Len, Index over [-Len-1, Len+1], Front, Back, IsEmpty, return "
                 "values) after every step; distinct = distinct case text; non-trivial = at least 3 operations of at least 2 different kinds",
         "modelled": COMMON_MODELLED,
